@@ -115,7 +115,11 @@ def run(chk):
                 "all distinct; non-trivial = contains a directive. Each is executed four times on the real code (twice "
                 "against one schema object, twice through one reused ConfigLoader).")
     docs = [DOC]
-    plans = [(3, STEPS), (4, STEPS_SMALL), (4, STEPS_SEC)] if quick else [(4, STEPS), (6, STEPS_SMALL[:7]), (5, STEPS_SEC)]
+    # (thorough: four steps over the vocabulary as it was before the three latest steps joined it - 22^4 histories
+    # times eight executions each would not fit the budget - and three steps over the whole of it)
+    older = [x for x in STEPS if x not in ("%define A \t v1", "%define $b v1", "%define a $a")]
+    plans = ([(3, STEPS), (4, STEPS_SMALL), (4, STEPS_SEC)] if quick
+             else [(3, STEPS), (4, older), (6, STEPS_SMALL[:7]), (5, STEPS_SEC)])
     for maxlen, steps in plans:
         sc = build(maxlen, steps, docs)
         outs = sc.run_spec(chk)
